@@ -2,5 +2,5 @@ CONSTANTS NodeId = 5  Walk = FALSE  WalkLen = 0  CfgName = "B"
 CONSTANT Groups <- GB  Dflt <- DB  Letters <- LB  ProbeLetters <- PP
 INIT Init
 NEXT Next
-VIEW View
+VIEW ViewM
 INVARIANT InvC17
